@@ -81,6 +81,7 @@ Extraction "model.ml"
   FootnoteSpec.first_seen
   FrontMatter.split_off_front_matter
   FrontMatter.count_lf
+  FrontMatter.count_line_endings
   FrontMatterSpec.spec_split
   FrontMatterSpec.spec_split_doc
   FrontMatterSpec.fm_class
